@@ -18,6 +18,21 @@ CLAIMED = {
          "running both on the same generated operations and comparing exactly.",
          "criteria are modelled as abstract decidable predicates (eval() of the criterion string is "
          "trusted to compute the comparison); attribute values compared by digest", "§4 C17"),
+ 'C10': ("Lean 4 proof over ℝ (list induction, List.Perm.sum_eq) on a scalar-template model instantiated at "
+         "Float and ℝ + differential correspondence of the Float instance against Theory.chisq / pull",
+         "chi-square = sum of squared pulls, non-negative, additive over ++, invariant under any permutation and "
+         "re-slicing, asymmetric-error branch by the sign of the residual, pull = signed contribution: proved for "
+         "all lists of measurements over ℝ; the accumulation code is tied to the model by running both on random "
+         "sub-multisets/permutations of bundled points (shipped and ad-hoc theories) and comparing to 1e-11.",
+         "the theory's predict() is a parameter of the model; floating-point summation is compared, not proved", "§4 C10"),
+ 'C13': ("Lean 4 proof over ℝ (field_simp/ring, Real.sqrt, exhaustive case split over frame × unit × harmonic "
+         "tables) on a scalar-template model + differential correspondence of its Float instance against "
+         "DataPoint completion and to/from/orig_conventions",
+         "completion from each pair satisfies xB=Q2/(W²+Q2−M²) and reproduces a consistent triple, xi and tm, "
+         "over-determined input rejected, under-determined untouched; from_conventions∘to_conventions = id for "
+         "every frame/unit/harmonic and orig_conventions = the value map of from_conventions: proved over ℝ for "
+         "all inputs; tied to the code on the full finite grid × random reals and on bundled points (ulp-level).",
+         "rounding of the degree/radian and pb/nb conversions is compared within a few ulp, not proved", "§4 C13"),
 }
 
 NOT_YET = {}
